@@ -96,7 +96,49 @@ partial def renderJ (ft : List (Nat × String)) : J → String
 
 def b2s (b : Bool) : String := if b then "true" else "false"
 
+/-- The field order the model gives the struct of `M` when its fields are declared over a chain of classes
+(`chain:2,1,2` = fields per level, root first): `classFields` on the chain's declarations. -/
+def chainOrder (fts : List (List Char × Ty)) (chain : String) : Option (List (List Char)) :=
+  let sizes := ((chain.drop 6).toString.splitOn ",").filterMap String.toNat?
+  let rec cut (fs : List (List Char × Ty)) (sz : List Nat) (li : Nat) : List (String × List (List Char × Ty)) :=
+    match sz with
+    | [] => []
+    | [n] => [("M", fs.take n)]
+    | n :: rest => (s!"B{li}", fs.take n) :: cut (fs.drop n) rest (li + 1)
+  let levels := cut fts sizes 0
+  let cs := chainDecls levels none
+  (cs.getLast?).map fun c => (classFields cs c).map (·.1)
+
+def reorderFields {α : Type} (order : List (List Char)) (fs : List (List Char × α)) : List (List Char × α) :=
+  order.filterMap fun k => (fs.find? (·.1 == k))
+
+def reorderVal (order : Option (List (List Char))) : Val → Val
+  | .struct fs => (match order with | some o => .struct (reorderFields o fs) | none => .struct fs)
+  | v => v
+
 def handleC20 : List String → String
+  | ["json", ty, val, chain] =>
+    (match parseTy20 ty, parseVal20 val with
+    | some (.struct fts), some v =>
+      let o := chainOrder fts chain
+      let v := reorderVal o v
+      let t := Ty.struct (match o with | some o => reorderFields o fts | none => fts)
+      let j := encode v
+      let rt := match decode t j with | some w => eqV w v | none => false
+      s!"ok {renderJ (floatTexts val) j}\x01{b2s rt}"
+    | _, _ => "bad-op")
+  | ["cmp", ty, v, w, chain] =>
+    (match parseTy20 ty, parseVal20 v, parseVal20 w with
+    | some (.struct fts), some v, some w =>
+      let o := chainOrder fts chain
+      let v := reorderVal o v
+      let w := reorderVal o w
+      let e := eqV v w
+      let c := cmpV v w
+      let lt := c == .lt
+      let gt := c == .gt
+      s!"ok {b2s e} {b2s (!e)} {b2s lt} {b2s (lt || c == .eq)} {b2s gt} {b2s (gt || c == .eq)}"
+    | _, _, _ => "bad-op")
   | ["json", ty, val] =>
     (match parseTy20 ty, parseVal20 val with
     | some t, some v =>
